@@ -34,6 +34,7 @@ static bool gCheckRange = false;
 static bool gTypedNew = true;
 static bool gFlatGep = false;
 static bool gThreads = false;   // emit __CPROVER_atomic_begin/end around atomics
+static std::set<std::string> gSplitStructsAll;  // as gSplitStructs, and pointer fields too
 static std::set<std::string> gSplitStructs;  // LLVM struct names whose integer fields wider than 8 bits are emitted as byte arrays (unions overlaid with byte data: keeps each byte its own cell)
 
 [[noreturn]] static void die(const std::string &msg) {
@@ -53,6 +54,7 @@ struct Emitter {
   std::set<unsigned> oddInts;
   std::set<std::string> externalsUsed;
   std::set<std::string> unmodelled;
+  std::set<std::string> zeroDefined;
   std::string body;  // function bodies
   unsigned anonCounter = 0;
 
@@ -95,15 +97,17 @@ struct Emitter {
       else n = uniq(sanitize(f->getName()));
       if (isExternalFn(f)) externalsUsed.insert(n);
     } else {
-      n = uniq(sanitize(gv->getName().empty() ? "anon_g" : gv->getName()));
+      StringRef gn = gv->getName();
+      if (gn == "stdout" || gn == "stderr" || gn == "stdin") n = uniq("ir2c_" + gn.str());   // libc's stream objects: printing is modelled away; a dummy object avoids clashing with <stdio.h> in native builds
+      else n = uniq(sanitize(gn.empty() ? "anon_g" : gn));
     }
     gvName[gv] = n;
     return n;
   }
 
   // ---------- types ----------
-  bool isSplitStruct(StructType *st) { return st && st->hasName() && gSplitStructs.count(st->getName().str()); }
-  bool isSplitField(StructType *st, unsigned fi) { if (!isSplitStruct(st)) return false; Type *e = st->getElementType(fi); return e->isIntegerTy() && e->getIntegerBitWidth() > 8; }
+  bool isSplitStruct(StructType *st) { return st && st->hasName() && (gSplitStructs.count(st->getName().str()) || gSplitStructsAll.count(st->getName().str())); }
+  bool isSplitField(StructType *st, unsigned fi) { if (!isSplitStruct(st)) return false; Type *e = st->getElementType(fi); return (e->isIntegerTy() && e->getIntegerBitWidth() > 8) || (e->isPointerTy() && gSplitStructsAll.count(st->getName().str())); }   // CBMC reassembles a pointer stored over byte cells (measured)
   std::string intTy(unsigned w, bool sgn = false) {
     unsigned s = w == 1 ? 1 : w <= 8 ? 8 : w <= 16 ? 16 : w <= 32 ? 32 : w <= 64 ? 64 : w <= 128 ? 128 : 0;
     if (!s) die("integer too wide: i" + std::to_string(w));
@@ -383,8 +387,10 @@ struct Emitter {
     if (t->isPointerTy()) {
       if (p == CmpInst::ICMP_EQ) return "((u1)((void*)" + a + "==(void*)" + b + "))";
       if (p == CmpInst::ICMP_NE) return "((u1)((void*)" + a + "!=(void*)" + b + "))";
-      a = "((u64)" + a + ")"; b = "((u64)" + b + ")";
-      t = Type::getInt64Ty(t->getContext());
+      // ordering of two pointers: emitted as a C pointer comparison (CBMC folds it to an offset comparison for pointers into the same object; the integer
+      // form (u64)a < (u64)b is not simplified and turns every bounds-checking loop into a symbolic one)
+      const char *po = p == CmpInst::ICMP_UGT || p == CmpInst::ICMP_SGT ? ">" : p == CmpInst::ICMP_UGE || p == CmpInst::ICMP_SGE ? ">=" : p == CmpInst::ICMP_ULT || p == CmpInst::ICMP_SLT ? "<" : "<=";
+      return "((u1)IR2C_PTRCMP((u8*)" + a + "," + std::string(po) + ",(u8*)" + b + "))";
     }
     if (!t->isIntegerTy()) die("vector icmp");
     unsigned w = t->getIntegerBitWidth();
@@ -529,6 +535,25 @@ struct Emitter {
         // typed allocation: find the unique non-i8 bitcast user
         Type *elt = nullptr; unsigned nb = 0;
         for (const User *u : cb.users()) if (auto *bc = dyn_cast<BitCastInst>(u)) { Type *e = bc->getType()->getNonOpaquePointerElementType(); if (!e->isIntegerTy(8) && e->isSized()) { if (elt != e) nb++; elt = e; } }
+        // array-new with a cookie: p = new[](8 + k*sizeof(T)); *(i64*)p = k; arr = (T*)(p+8).  Type the block as T[k+1] with the cookie in the tail of a dummy
+        // element 0, so that the elements keep their field structure (vtable pointers, Refs) instead of becoming bytes of an i64 array.
+        {
+          // the element type is the struct type that the SMALLEST constant byte offset is cast to (larger offsets are the end pointer or direct member accesses)
+          Type *celt = nullptr; uint64_t coff = 0; unsigned ncand = 0;
+          for (const User *u : cb.users()) if (auto *g = dyn_cast<GetElementPtrInst>(u)) {
+            if (g->getNumIndices() == 1) if (auto *ci = dyn_cast<ConstantInt>(g->getOperand(1))) {
+              const uint64_t off = ci->getZExtValue();
+              for (const User *u2 : g->users()) if (auto *bc2 = dyn_cast<BitCastInst>(u2)) {
+                Type *e = bc2->getType()->getNonOpaquePointerElementType();
+                if (e->isIntegerTy(8) || !e->isSized() || !e->isStructTy() || off == 0) continue;
+                if (celt == nullptr || off < coff) { celt = e; coff = off; ncand = 1; }
+                else if (off == coff && e != celt) ncand++;
+              }
+            }
+          }
+          if (getenv("IR2C_DEBUG")) errs() << "cookie probe: celt=" << (celt!=nullptr) << " ncand=" << ncand << " coff=" << coff << "\n";
+          if (celt && ncand == 1 && coff > 0 && coff <= 16 && DL.getTypeAllocSize(celt).getFixedSize() >= coff) return "IR2C_NEW_COOKIE(" + cty(celt) + "," + args[0] + "," + std::to_string(coff) + ")";
+        }
         if (elt && nb == 1 && !DL.getTypeAllocSize(elt).isZero()) return "IR2C_NEW_TYPED(" + cty(elt) + "," + args[0] + ")";
       }
       if (f->getName() == "__CPROVER_assert" && cb.arg_size() == 2) {
@@ -561,9 +586,30 @@ struct Emitter {
     case Intrinsic::invariant_end: case Intrinsic::donothing: case Intrinsic::prefetch: case Intrinsic::assume:
     case Intrinsic::stacksave: case Intrinsic::stackrestore: case Intrinsic::var_annotation:
       isVoidLike = true; return "";
-    case Intrinsic::memcpy: case Intrinsic::memcpy_inline: isVoidLike = true; return "IR2C_memcpy(" + a[0] + "," + a[1] + "," + a[2] + ")";
-    case Intrinsic::memmove: isVoidLike = true; return "IR2C_memmove(" + a[0] + "," + a[1] + "," + a[2] + ")";
-    case Intrinsic::memset: isVoidLike = true; return "IR2C_memset(" + a[0] + "," + a[1] + "," + a[2] + ")";
+    case Intrinsic::memcpy: case Intrinsic::memcpy_inline: case Intrinsic::memmove: {
+      isVoidLike = true;
+      // a whole-object copy of known type (both operands are bitcasts of T*, length == sizeof(T)) is emitted as a typed assignment: a byte/word copy loop
+      // would turn every field of the destination into a byte-update chain that CBMC's constant propagation cannot see through
+      if (auto *len = dyn_cast<ConstantInt>(cb.getArgOperand(2))) {
+        const Value *d = cb.getArgOperand(0)->stripPointerCasts(), *sv = cb.getArgOperand(1)->stripPointerCasts();
+        Type *dt = d->getType()->isPointerTy() ? d->getType()->getNonOpaquePointerElementType() : nullptr;
+        Type *stp = sv->getType()->isPointerTy() ? sv->getType()->getNonOpaquePointerElementType() : nullptr;
+        if (dt && dt == stp && (dt->isStructTy() || dt->isArrayTy()) && dt->isSized() && DL.getTypeAllocSize(dt).getFixedSize() == len->getZExtValue() && !isa<Constant>(d) && !isa<Constant>(sv))
+          return "(*(" + cty(dt) + "*)" + val(d) + " = *(" + cty(dt) + "*)" + val(sv) + ")";
+      }
+      if (id == Intrinsic::memmove) return "IR2C_memmove(" + a[0] + "," + a[1] + "," + a[2] + ")";
+      return "IR2C_memcpy(" + a[0] + "," + a[1] + "," + a[2] + ")";
+    }
+    case Intrinsic::memset: {
+      isVoidLike = true;
+      if (auto *len = dyn_cast<ConstantInt>(cb.getArgOperand(2))) if (auto *cv = dyn_cast<ConstantInt>(cb.getArgOperand(1))) if (cv->isZero()) {
+        const Value *d = cb.getArgOperand(0)->stripPointerCasts();
+        Type *dt = d->getType()->isPointerTy() ? d->getType()->getNonOpaquePointerElementType() : nullptr;
+        if (dt && (dt->isStructTy() || dt->isArrayTy()) && dt->isSized() && DL.getTypeAllocSize(dt).getFixedSize() == len->getZExtValue() && !isa<Constant>(d))
+          return "(*(" + cty(dt) + "*)" + val(d) + " = (" + cty(dt) + "){0})";
+      }
+      return "IR2C_memset(" + a[0] + "," + a[1] + "," + a[2] + ")";
+    }
     case Intrinsic::expect: case Intrinsic::expect_with_probability: return a[0];
     case Intrinsic::launder_invariant_group: case Intrinsic::strip_invariant_group: return a[0];
     case Intrinsic::objectsize: return cast<ConstantInt>(cb.getArgOperand(1))->isOne() ? "((" + cty(rt) + ")0)" : "((" + cty(rt) + ")-1)";
@@ -704,6 +750,12 @@ struct Emitter {
     case Instruction::URem: case Instruction::SRem: case Instruction::Shl: case Instruction::LShr: case Instruction::AShr:
     case Instruction::And: case Instruction::Or: case Instruction::Xor:
     case Instruction::FAdd: case Instruction::FSub: case Instruction::FMul: case Instruction::FDiv: case Instruction::FRem:
+      // pointer difference: sub(ptrtoint a, ptrtoint b) is emitted as a C pointer subtraction, which CBMC folds to the offset difference for pointers into the
+      // same object (it does not simplify the integer form)
+      if (I.getOpcode() == Instruction::Sub && T->isIntegerTy(64)) {
+        auto *pa = dyn_cast<PtrToIntOperator>(I.getOperand(0)); auto *pb = dyn_cast<PtrToIntOperator>(I.getOperand(1));
+        if (pa && pb) { o += "  " + lhs + "((u64)(s64)((u8*)" + val(pa->getPointerOperand()) + " - (u8*)" + val(pb->getPointerOperand()) + "));\n"; break; }
+      }
       o += "  " + lhs + binop(I.getOpcode(), V(0), V(1), T) + ";\n";
       break;
     case Instruction::ICmp: o += "  " + lhs + icmp(cast<ICmpInst>(I).getPredicate(), V(0), V(1), I.getOperand(0)->getType()) + ";\n"; break;
@@ -851,6 +903,13 @@ struct Emitter {
         continue;
       }
       if (G.getName() == "llvm.global_dtors" || G.getName() == "llvm.used" || G.getName() == "llvm.compiler.used") continue;
+      // declaration-only RTTI objects (typeinfo / vtable of a class whose key function lives in a translation unit that is not part of the closure) are only ever
+      // referenced from other RTTI records: give them a zero definition so that native builds of the generated C link
+      // ... and so are the few plain external variables of muscle that header code reads (e.g. muscle::_muscleSingleThreadOnly, defined false in SetupSystem.cpp):
+      // a zero definition is their real initial value; the report lists them under "zero_defined_globals"
+      const bool rttiDecl = G.isDeclaration() && !keepName(G.getName()) && G.getName() != "__dso_handle";
+      if (rttiDecl) zeroDefined.insert(G.getName().str());
+      if (G.isDeclaration() && !rttiDecl && !(G.getName() == "stdout" || G.getName() == "stderr" || G.getName() == "stdin")) continue;   // defined elsewhere (e.g. the generated layout tables): only the extern declaration below
       std::string d = std::string(G.isThreadLocal() ? "__thread " : "") + cty(G.getValueType()) + " " + gname(&G);
       if (G.hasInitializer() && !isa<UndefValue>(G.getInitializer()) && !G.getInitializer()->isNullValue()) d += " = " + cexpr(G.getInitializer(), true);
       gdefs += d + ";\n";
@@ -900,7 +959,19 @@ struct Emitter {
     for (Type *t : aggOrder) {
       if (auto *st = dyn_cast<StructType>(t)) {
         if (st->isOpaque()) continue;
-        td += "struct " + std::string(st->isPacked() ? "__attribute__((packed)) " : "") + tyName[t] + " {";
+        // LLVM marks a struct packed also when it merely reuses tail padding; if the natural layout is identical, emit a plain struct (CBMC accesses packed
+        // structs bytewise, which defeats its constant propagation); the _Static_asserts below check the layout either way.
+        bool needPacked = st->isPacked();
+        if (needPacked) {
+          StructType *nat = StructType::get(st->getContext(), st->elements(), false);
+          const StructLayout *a = DL.getStructLayout(st), *b = DL.getStructLayout(nat);
+          bool same = a->getSizeInBytes() == b->getSizeInBytes();
+          for (unsigned k = 0; same && k < st->getNumElements(); k++) same = a->getElementOffset(k) == b->getElementOffset(k);
+          if (same) needPacked = false;
+        }
+        std::string alignAttr;
+        if (isSplitStruct(st)) alignAttr = "__attribute__((aligned(" + std::to_string(DL.getABITypeAlignment(st)) + "))) ";   // byte cells would otherwise lower the struct's alignment
+        td += "struct " + std::string(needPacked ? "__attribute__((packed)) " : "") + alignAttr + tyName[t] + " {";
         unsigned i = 0;
         for (Type *e : st->elements()) {
           if (isSplitField(st, i)) td += " u8 f" + std::to_string(i) + "[" + std::to_string(DL.getTypeAllocSize(e).getFixedSize()) + "];";
@@ -979,6 +1050,7 @@ int main(int argc, char **argv) {
     }
     else if (a == "--threads") gThreads = true;
     else if (a == "--split-struct" && i + 1 < argc) gSplitStructs.insert(argv[++i]);
+    else if (a == "--split-struct-all" && i + 1 < argc) gSplitStructsAll.insert(argv[++i]);
     else if (a == "--report" && i + 1 < argc) report = argv[++i];
     else if (a[0] != '-') in = a;
     else die("bad arg " + a);
@@ -1003,6 +1075,9 @@ int main(int argc, char **argv) {
     fprintf(r, "],\"unmodelled\":[");
     first = true;
     for (auto &n : E.unmodelled) { fprintf(r, "%s\"%s\"", first ? "" : ",", n.c_str()); first = false; }
+    fprintf(r, "],\"zero_defined_globals\":[");
+    first = true;
+    for (auto &n : E.zeroDefined) { fprintf(r, "%s\"%s\"", first ? "" : ",", n.c_str()); first = false; }
     fprintf(r, "]}\n");
     fclose(r);
   }
